@@ -56,3 +56,79 @@ Qed.
 
 Lemma sort_keys_sorted l : Sorted key_le (sort_keys l).
 Proof. induction l as [|k r IH]; cbn [sort_keys]; [constructor | apply insert_key_sorted; assumption]. Qed.
+
+(* ---- determinism: the order produced by sort_keys depends only on the SET of children ------------------------------------ *)
+Section LEX.
+  Context {A : Type} (leb eqb : A -> A -> bool).
+  Hypothesis eqb_spec : forall x y, reflect (x = y) (eqb x y).
+  Hypothesis leb_antisym : forall x y, leb x y = true -> leb y x = true -> x = y.
+  Hypothesis leb_trans : forall x y z, leb x y = true -> leb y z = true -> leb x z = true.
+
+  Lemma lex_leb_antisym a : forall b, lex_leb leb eqb a b = true -> lex_leb leb eqb b a = true -> a = b.
+  Proof.
+    induction a as [|x a IH]; intros [|y b]; cbn [lex_leb]; try discriminate; [reflexivity|].
+    destruct (eqb_spec x y) as [->|Hne].
+    - destruct (eqb_spec y y); [|congruence]. intros H1 H2. f_equal. apply IH; assumption.
+    - destruct (eqb_spec y x); [congruence|]. intros H1 H2. exfalso. apply Hne. apply leb_antisym; assumption.
+  Qed.
+
+  Lemma lex_leb_trans a : forall b c, lex_leb leb eqb a b = true -> lex_leb leb eqb b c = true -> lex_leb leb eqb a c = true.
+  Proof.
+    induction a as [|x a IH]; intros [|y b] [|z c]; cbn [lex_leb]; try discriminate; try reflexivity.
+    destruct (eqb_spec x y) as [->|Hxy]; destruct (eqb_spec y z) as [->|Hyz].
+    - destruct (eqb_spec z z); [|congruence]. apply IH.
+    - destruct (eqb_spec y z); [congruence|]. intros _ H; exact H.
+    - destruct (eqb_spec x z); [congruence|]. intros H _; exact H.
+    - intros H1 H2. destruct (eqb_spec x z) as [->|Hxz].
+      + exfalso. apply Hxy. apply leb_antisym; assumption.
+      + eapply leb_trans; eassumption.
+  Qed.
+End LEX.
+
+Lemma N_leb_antisym x y : N.leb x y = true -> N.leb y x = true -> x = y.
+Proof. rewrite !N.leb_le. lia. Qed.
+Lemma N_leb_trans x y z : N.leb x y = true -> N.leb y z = true -> N.leb x z = true.
+Proof. rewrite !N.leb_le. lia. Qed.
+
+Lemma str_leb_antisym a b : str_leb a b = true -> str_leb b a = true -> a = b.
+Proof. apply lex_leb_antisym; [apply N.eqb_spec | apply N_leb_antisym]. Qed.
+Lemma str_leb_trans a b c : str_leb a b = true -> str_leb b c = true -> str_leb a c = true.
+Proof. apply lex_leb_trans; [apply N.eqb_spec | apply N_leb_antisym | apply N_leb_trans]. Qed.
+
+Lemma key_le_antisym a b : key_le a b -> key_le b a -> a = b.
+Proof. apply lex_leb_antisym; [apply str_eqb_spec | apply str_leb_antisym]. Qed.
+Lemma key_le_trans a b c : key_le a b -> key_le b c -> key_le a c.
+Proof. apply lex_leb_trans; [apply str_eqb_spec | apply str_leb_antisym | apply str_leb_trans]. Qed.
+
+Lemma sorted_unique (l1 : list key) : forall l2,
+  StronglySorted key_le l1 -> StronglySorted key_le l2 -> NoDup l1 -> NoDup l2 ->
+  (forall x, In x l1 <-> In x l2) -> l1 = l2.
+Proof.
+  induction l1 as [|a l1 IH]; intros [|b l2] S1 S2 N1 N2 H.
+  - reflexivity.
+  - exfalso. apply (proj2 (H b)). left; reflexivity.
+  - exfalso. apply (proj1 (H a)). left; reflexivity.
+  - inversion S1 as [|? ? S1' F1]; inversion S2 as [|? ? S2' F2]; inversion N1; inversion N2; subst.
+    rewrite Forall_forall in F1, F2.
+    assert (a = b).
+    { destruct (proj1 (H a) (or_introl eq_refl)) as [E|Ha]; [congruence|].
+      destruct (proj2 (H b) (or_introl eq_refl)) as [E|Hb]; [congruence|].
+      apply key_le_antisym; [apply F1 | apply F2]; assumption. }
+    subst b. f_equal. apply IH; try assumption. intros x; split; intros Hx.
+    + destruct (proj1 (H x) (or_intror Hx)) as [E|]; [subst; contradiction | assumption].
+    + destruct (proj2 (H x) (or_intror Hx)) as [E|]; [subst; contradiction | assumption].
+Qed.
+
+(* the visiting order of the children does not depend on the order in which the set was filled *)
+Theorem sort_keys_set_determined l1 l2 :
+  NoDup l1 -> NoDup l2 -> (forall x, In x l1 <-> In x l2) -> sort_keys l1 = sort_keys l2.
+Proof.
+  intros N1 N2 H. apply sorted_unique.
+  - apply Sorted_StronglySorted; [exact key_le_trans | apply sort_keys_sorted].
+  - apply Sorted_StronglySorted; [exact key_le_trans | apply sort_keys_sorted].
+  - eapply Permutation_NoDup; [apply Permutation_sym, sort_keys_perm | assumption].
+  - eapply Permutation_NoDup; [apply Permutation_sym, sort_keys_perm | assumption].
+  - intros x. split; intros Hx.
+    + eapply Permutation_in; [apply Permutation_sym, sort_keys_perm|]. apply H. eapply Permutation_in; [apply sort_keys_perm | exact Hx].
+    + eapply Permutation_in; [apply Permutation_sym, sort_keys_perm|]. apply H. eapply Permutation_in; [apply sort_keys_perm | exact Hx].
+Qed.
